@@ -302,14 +302,16 @@ PROPS = {
         "level_note": "Trusted: Lean kernel; the Rust memory model and Once. The model is a state machine of the cells, not of the hardware.",
     },
     "C19": {
-        "families": [{"name": "witness"}, {"name": "raw"}, {"name": "decl"}, {"name": "frame"}],
-        "tags": {"witness": "direct", "witness-control": "indirect", "witness-model": "indirect", "invent": "direct",
+        "families": [{"name": "witness"}, {"name": "raw"}, {"name": "decl"}, {"name": "frame"}, {"name": "miri"}],
+        "tags": {"miri": "direct", "witness": "direct", "witness-control": "indirect", "witness-model": "indirect", "invent": "direct",
                  "dec-panic": "direct", "dec-alloc": "direct", "memory": "direct", "frame-alloc": "direct", "abs-diff": "indirect"},
         "rule": "12 safe-Rust programs under #![forbid(unsafe_code)] (9 that must be rejected by the compiler, 3 well-scoped controls) compiled "
                 "against the working tree; the ref-table ones also run through the Lean ownership machine; raw / tampered inputs for every "
                 "array, byte-vector and derived target compared with the reference decoder (a decoder that returned uninitialised or foreign "
                 "memory shows as a value the reference does not assign); damaged compressed frames must yield exactly what their compressed "
-                "part inflates to (no bytes that the decompressor did not produce)",
+                "part inflates to (no bytes that the decompressor did not produce); a scenario program (miri/main.rs: arrays, byte vectors, "
+                "frames, derived codecs on valid and damaged input, the reference table, contended first use) runs under Miri against the "
+                "working tree (supporting evidence: reads of uninitialised or freed memory, out-of-bounds accesses, data races)",
         "trusted": ["rustc's borrow checker as the oracle for 'accepted by the safe API'", "the ownership machine abstracts the API to the lifetime "
                     "edge of store_ref; the catalogue is finite", "Miri / ASan are not part of the quick check"],
         "partial": "'all client programs' is explored through a finite catalogue; undefined behaviour after the fact is not exhibited by the model",
